@@ -75,6 +75,7 @@ class Built:
     def __init__(self, hist):
         dll = hist[0][1]
         wx, wy, self.exact = (hist[0][2], hist[0][3], hist[0][4]) if len(hist[0]) > 3 else (2, 2, False)
+        self.wy = min(wx, wy)          # packets per CTS on X's own outbound sessions
         self.dll = dll
         sc = {'dll': dll, 'base_lat': 1e-3, 'zero_ts': len(hist[0]) > 5 and bool(hist[0][5]),
               'stacks': [{'name': 'X', 'cas': [XA, XB], 'win': wx}, {'name': 'Y', 'cas': [YA, YB], 'win': wy}]}
@@ -194,6 +195,15 @@ class Built:
             long_size = 24000 if v == 'rts_timeout' else 6000
             if v == 'rts_timeout':
                 net.bus.base_lat = 5e-3          # slow bus: the own sessions outlast the receive timeout
+            if self.wy > 8:
+                # large windows: without a round trip per few packets the own sessions would be over before the probe;
+                # a blocking driver (1 ms per frame) keeps them in flight
+                net.bus.send_cost = 1e-3
+                if v == 'rts_timeout':
+                    # the own sessions must outlast 1.32 s without any of them waiting longer than T2 for its turn:
+                    # three windows of 255 segments each, 0.4 ms per frame (0.8 s per round over the 8 sessions)
+                    net.bus.send_cost = 0.4e-3
+                    long_size = 45000
             if own_bam:
                 own = [msg(XA, 'bam2', 0x50 + i, 900) for i in range(4)]
             else:
@@ -243,6 +253,7 @@ class Built:
             p.rx.clear()
         # back to a fault-free network
         net.bus.base_lat = 1e-3
+        net.bus.send_cost = 0.0
         net.bus.drop = set()
         self.y.silent_from = None
         if not net.is_idle(self.x):
